@@ -730,3 +730,32 @@ func (t trapTransport) RoundTrip(req *http.Request) (*http.Response, error) {
 	t.w.Infra("request escaped the simulated transport: %s %s", req.Method, req.URL)
 	return nil, io.ErrClosedPipe
 }
+
+// canonTransport sits between the code under test and the simulated network.
+// ComputeChangeSets fills the trash and pull lists from a GOMAXPROCS-sized worker pool, so
+// the ORDER of entries in a PUT /trash or /pull body is not a function of the seed. The
+// order carries no meaning for keepstore (it is a set of requests), therefore the body is
+// sorted before the simulated network sees it: request identity, logs and oracles then
+// depend only on the set.
+type canonTransport struct{ net *vsim.Net }
+
+func (t canonTransport) RoundTrip(req *http.Request) (*http.Response, error) {
+	if req.Method == "PUT" && req.Body != nil && (req.URL.Path == "/trash" || req.URL.Path == "/pull") {
+		raw, err := io.ReadAll(req.Body)
+		req.Body.Close()
+		if err != nil {
+			return nil, err
+		}
+		var l []json.RawMessage
+		if json.Unmarshal(raw, &l) == nil && l != nil {
+			sort.Slice(l, func(i, j int) bool { return string(l[i]) < string(l[j]) })
+			if b, err := json.Marshal(l); err == nil {
+				raw = b
+			}
+		}
+		req = req.Clone(req.Context())
+		req.Body = io.NopCloser(strings.NewReader(string(raw)))
+		req.ContentLength = int64(len(raw))
+	}
+	return t.net.RoundTrip(req)
+}
